@@ -16,8 +16,9 @@ from .common import attr, sub, var
 LEVEL_TEXT = ('Static decision of the structural necessary conditions: the relinking code is executed on a symbolic '
               'three-node heap and must produce L <-> new <-> right; each insertion appends once; both interval '
               'lengths are (x_right - x_left)^(1/N) of the pre-relink neighbours; every evaluated item is inserted '
-              'exactly once and nothing else except the two seed ends; only the insert routines relink and only the '
-              'evaluation routine writes a stored item.')
+              'exactly once and nothing else except the two seed ends; every item the library constructs is '
+              'Item(Point(GetImage(t)), t); the renewal routine is entered only with the (new, popped) pair of the '
+              'selection routine; only the insert routines relink and only the evaluation routine writes a stored item.')
 EXPLANATION = ('Path summaries of InsertDataItem / InsertFirstDataItem (accessors inlined) are compared with the '
                'expected post-heap; delta stores in the seeding and renewal routines are normalised and compared '
                'with pow(x_r - x_l, 1/N); event traces of the iteration driver pair EVAL(p) with INSERT(p); writers '
